@@ -402,6 +402,34 @@ func runC01(w *World, r *Report) {
 	// ---------- R6 skip edges
 	c01SkipEdges(w, r, m)
 
+	// ---------- R8: a pack is never answered before its messages were looked at
+	r.Rule("C01-R8", "no pack is dismissed unread", "every return of handlePack that hands back the empty pack (or nil without an error event) lies behind the message loop: the loop header dominates it. A pack is not dropped as a whole on a test made before its messages were examined (a 'repeated pack' / 'nothing new' fast path)", 2)
+	{
+		empty := w.Obj(pkgAPI, "EmptyMsgPack")
+		nEmpty := 0
+		eachInstr(fn, func(in ssa.Instruction) {
+			ret, isR := in.(*ssa.Return)
+			if !isR || ret.Block().Comment == "recover" || len(ret.Results) == 0 {
+				return
+			}
+			v := returnedValue(ret, 0)
+			isEmpty := false
+			if u, isU := v.(*ssa.UnOp); isU {
+				if g, isG := u.X.(*ssa.Global); isG && empty != nil && g.Object() == empty {
+					isEmpty = true
+				}
+			}
+			if !isEmpty {
+				return
+			}
+			nEmpty++
+			after := m.LoopHeader != nil && m.LoopHeader.Dominates(ret.Block()) && loopHeaderOf(ret.Block()) != m.LoopHeader
+			r.Check(after, "C01-R8", fmt.Sprintf("(*replicateChannelHandler).handlePack | empty-pack return #%d is behind the message loop", nEmpty), ret.Pos(), "the loop over pack.Msgs dominates the return", "the whole pack is answered with the empty pack before (or inside) the loop over its messages: whatever the new test takes for 'already handled' — equal end timestamps of two collections sharing a channel, a lagging stream — is silently lost")
+		})
+		if nEmpty == 0 {
+			r.Info("C01-R8", "(*replicateChannelHandler).handlePack | empty-pack returns", fn.Pos(), "handlePack no longer returns api.EmptyMsgPack")
+		}
+	}
 	// ---------- R7
 	var sortCall *ssa.Call
 	eachInstr(fn, func(in ssa.Instruction) {
